@@ -303,6 +303,41 @@ func ruleIndexComaintenance(c *Ctx) {
 	}
 	ruleRefreshResets(c)
 	ruleMultimapAppend(c)
+	// fee buckets are keyed the way balances are looked up: a payer key carries a depositor (secondary account)
+	// exactly when the sender is the Notary contract - that is the test Feer.GetUtilityTokenBalance applies to decide
+	// between an account's GAS and a depositor's Notary deposit
+	if fd := c.P.Func(mpPkg, "", "getPayer"); fd == nil {
+		c.Lost("getPayer.anchor", "mempool.getPayer not found")
+	} else {
+		f := c.P.NewFuncCFG(fd)
+		targets := map[*cfg.Block]bool{}
+		for _, r := range f.Returns() {
+			ast.Inspect(r.node, func(x ast.Node) bool {
+				if cl, ok := x.(*ast.CompositeLit); ok {
+					for _, el := range cl.Elts {
+						if kv, ok := el.(*ast.KeyValueExpr); ok {
+							if id, ok := kv.Key.(*ast.Ident); ok && id.Name == "secondary" {
+								targets[r.blk] = true
+							}
+						}
+					}
+				}
+				return true
+			})
+		}
+		key := "getPayer.sponsored-iff-notary-sender"
+		if len(targets) == 0 {
+			c.Lost(key+".target", "getPayer builds no payer key with a secondary account")
+		} else {
+			res := f.CheckGate(f.Entry(), targets, Guard{ID: "sender-is-notary", Doc: "the two-account payer key is used only when the transaction's sender is the Notary contract",
+				Alts: [][]string{{"pkg/core/transaction.(*Transaction).Sender", "pkg/core/native/nativehashes.Notary", "pkg/util.(Uint160).Equals"}}}, nil)
+			if res.OK {
+				c.OK(key, c.P.Pos(fd.Decl.Pos()), "a payer key carries a depositor exactly when the sender is the Notary contract: "+res.Msg)
+			} else {
+				c.Fail(key, c.P.Pos(fd.Decl.Pos()), "getPayer builds a two-account payer key without the sender being tested against the Notary contract: the fees of one account are then summed in several buckets, each checked against the full balance: "+res.Msg, res.Path...)
+			}
+		}
+	}
 	// fee sums are adjusted only for the payer of the very transaction concerned
 	runGates(c, []GateSpec{{
 		ID: "checkTxConflicts.fee-credit", Fn: [3]string{mpPkg, "Pool", "checkTxConflicts"}, Target: "call:github.com/holiman/uint256.(*Int).SubUint64",
@@ -562,4 +597,74 @@ func ruleMultimapAppend(c *Ctx) {
 		})
 	}
 	c.Floor("element stores into the conflicts index", n, 3)
+}
+
+// single-comparator: the pool's priority order (HighPriority, then fee per byte, then network fee) is decided in one
+// place, item.Compare. A comparison that puts the priority fields of two transactions side by side anywhere else in
+// the package is a second, partial order - it forgets one of the three levels. Tabled: the oracle-response
+// replacement rule, which by design looks at the network fee only.
+var priorityCompareOK = map[string]string{
+	"pkg/core/mempool.(*Pool).Add": "an oracle response replaces the pooled response for the same request only if it pays a strictly higher network fee (NetworkFee >= on the verifiedMap entry of that request id)",
+}
+
+func ruleSingleComparator(c *Ctx) {
+	pk := c.P.Pkg(mpPkg)
+	if pk == nil {
+		c.Lost("anchor", "package mempool not found")
+		return
+	}
+	prio := []string{"pkg/core/transaction#NetworkFee", "pkg/core/transaction.(*Transaction).FeePerByte"}
+	mentionsPrio := func(f *FuncCFG, e ast.Expr) bool {
+		m := f.DirectMentions(e)
+		for _, p := range prio {
+			if m[p] {
+				return true
+			}
+		}
+		return false
+	}
+	ncmp, nelse := 0, 0
+	usedTab := map[string]int{}
+	for _, fd := range c.P.AllFuncDecls() {
+		if fd.Pkg != pk || fd.Decl.Body == nil {
+			continue
+		}
+		f := c.P.NewFuncCFG(fd)
+		fk := FuncKey(fd.Obj)
+		isComparator := fd.Decl.Name.Name == "Compare" || fd.Decl.Name.Name == "CompareTo"
+		idx := 0
+		ast.Inspect(fd.Decl.Body, func(x ast.Node) bool {
+			be, ok := x.(*ast.BinaryExpr)
+			if !ok {
+				return true
+			}
+			switch be.Op {
+			case token.EQL, token.NEQ, token.LSS, token.GTR, token.LEQ, token.GEQ, token.SUB:
+			default:
+				return true
+			}
+			if !mentionsPrio(f, be.X) || !mentionsPrio(f, be.Y) {
+				return true
+			}
+			if isComparator {
+				ncmp++
+				return true
+			}
+			nelse++
+			idx++
+			key := fmt.Sprintf("%s.priority-comparison#%d", fk, idx)
+			if why, ok := priorityCompareOK[fk]; ok && usedTab[fk] == 0 {
+				usedTab[fk]++
+				c.OK(key, c.P.Pos(be.Pos()), "tabled: "+why)
+				return true
+			}
+			c.Fail(key, c.P.Pos(be.Pos()), fmt.Sprintf("%s compares the priority fields of two transactions (`%s`) outside item.Compare: a second, partial order that ignores part of (HighPriority, fee per byte, network fee) decides a placement or an eviction", fk, trunc(types.ExprString(be), 80)))
+			return true
+		})
+	}
+	if ncmp < 2 {
+		c.Lost("comparator", fmt.Sprintf("the comparator of pool items compares %d priority fields (expected fee per byte and network fee)", ncmp))
+	} else {
+		c.OK("comparator", "", fmt.Sprintf("item.Compare holds %d priority-field comparisons; %d elsewhere, all tabled", ncmp, nelse))
+	}
 }
